@@ -376,6 +376,22 @@ def layout(prog, ctx):
             i_ = strip_casts(i_['args'][0])
         if i_.get('k') == 'Ref' and i_.get('name') == 'region' and d_['ty'].startswith('std::vector<double'):
             copies += 2
+        # iterator-range construction `std::vector<double> t(region.begin(), region.begin() + 2*ndim)` / `(region.begin(), region.end())`
+        i0 = strip_casts(d_['init']) if d_.get('init') is not None else {}
+        if i0.get('k') == 'Construct' and d_['ty'].startswith('std::vector<double'):
+            a2 = [a_ for a_ in i0.get('args', []) if a_.get('k') != 'DefaultArg']
+            if len(a2) == 2:
+                try:
+                    its = [sxm.iterator(strip_casts(a_), _St({})) for a_ in a2]
+                except Undecided:
+                    its = [None]
+                if all(its) and its[0][0] == 'region' and its[1][0] == 'region' and its[0][1] == 0:
+                    end = its[1][1]
+                    if str(sp.simplify(end)) == 'len(region)' or any(sp.simplify(end - 2 * sxm.symbol(h_, 'int')) == 0 for h_ in halves) \
+                            or any(str(sp.simplify(end - 2 * Symbol(h_, integer=True))) == '0' for h_ in halves):
+                        copies += 2
+                    else:
+                        bad.append('range construction from region[0,%s) does not copy both bounds of every axis' % end)
     if bad:
         ctx.violated('C14.d', 'Miser:subregions', ms, 'Miser builds its sub-regions with a different layout: %s' % bad, witness={'assignments': bad})
     elif mids and all(subs_.values()) and copies >= 2 and halves:
